@@ -810,3 +810,55 @@ package process
 //@   callsite[C07] C07.shiftContR process.Form.typecheckForm#1: arg2 == addr(p, ShiftForm, continuation_c) && arg3 == unf(types.UpType(unf(providerType, labelledTypesEnv)).Continuation, labelledTypesEnv) && arg1 == gammaNameTypesCtx
 //@   callsite[C07] C07.shiftContL process.Form.typecheckForm#2: arg2 == providerShadowName && arg3 == providerType &&
 //@        gammaNameTypesCtx[p.continuation_c.Ident].Type == unf(types.DownType(unf(old(gammaNameTypesCtx[p.from_c.Ident].Type), labelledTypesEnv)).Continuation, labelledTypesEnv)
+
+// case w ( l1<p1> => P1 | ... ): every case label is a label of the choice, case labels are pairwise distinct, and
+// there are at least as many cases as the choice has labels (with the labels of a well-formed choice being distinct
+// this is exact coverage, by the pigeonhole principle - argued in DESIGN.md, not mechanised)
+//@ macro casesMatch(bs []*BranchForm, n int, ts []types.Option) bool =
+//@    (forall i int :: 0 <= i && i < n ==> (exists k int :: 0 <= k && k < len(ts) && ts[k].Label == bs[i].label.L)) &&
+//@    (forall i int, j int :: 0 <= i && i < j && j < n ==> bs[i].label.L != bs[j].label.L)
+//@ macro stepCase(p *CaseForm, g NamesTypesCtx, sh *Name, A types.SessionType, env types.LabelledTypesEnv) bool =
+//@    ite(isProv(p.from_c.Ident, p.from_c.IsSelf, sh),
+//@        is(unf(A, env), types.BranchCaseType) && len(p.branches) >= len(types.BranchCaseType(unf(A, env)).Branches) && casesMatch(p.branches, len(p.branches), types.BranchCaseType(unf(A, env)).Branches),
+//@        has(g, p.from_c.Ident) && is(unf(g[p.from_c.Ident].Type, env), types.SelectLabelType) &&
+//@           len(p.branches) >= len(types.SelectLabelType(unf(g[p.from_c.Ident].Type, env)).Branches) && casesMatch(p.branches, len(p.branches), types.SelectLabelType(unf(g[p.from_c.Ident].Type, env)).Branches))
+//@ macro seenLabels(m map[string]bool, bs []*BranchForm, n int) bool = m != nil && len(m) == n &&
+//@    (forall i int :: 0 <= i && i < n ==> has(m, bs[i].label.L) && m[bs[i].label.L]) &&
+//@    (forall s string :: has(m, s) ==> (exists i int :: 0 <= i && i < n && bs[i].label.L == s))
+//@ contract (*CaseForm).typecheckForm
+//@   ensures[C07] C07.caseOf: result == nil ==> old(stepCase(p, gammaNameTypesCtx, providerShadowName, providerType, labelledTypesEnv))
+//@   loop[C07] 1 invariant seenLabels(labelsChecked, p.branches, idx + 1) && casesMatch(p.branches, idx + 1, providerBranchCaseType.Branches)
+//@   loop[C07] 2 invariant seenLabels(labelsChecked, p.branches, idx + 1) && casesMatch(p.branches, idx + 1, clientSelectLabelType.Branches)
+//@   callsite[C07] C07.caseContR process.Form.typecheckForm#1: arg2 == addr(p.branches[idx1 + 1], BranchForm, payload_c) &&
+//@        (exists k int :: firstAt(providerBranchCaseType.Branches, p.branches[idx1 + 1].label.L, k) && arg3 == providerBranchCaseType.Branches[k].SessionType)
+//@   callsite[C07] C07.caseContL process.Form.typecheckForm#2: arg2 == providerShadowName && arg3 == providerType &&
+//@        (exists k int :: firstAt(clientSelectLabelType.Branches, p.branches[idx2 + 1].label.L, k) && newGammaNameTypesCtx[p.branches[idx2 + 1].payload_c.Ident].Type == clientSelectLabelType.Branches[k].SessionType)
+
+// f(args): the callee is defined, the arities fit (an explicit first argument must be the provider), the provider's
+// type equals the result type of the signature and every argument's type equals the corresponding parameter's type
+//@ macro argsFit(ps []Name, from int, n int, off int, g NamesTypesCtx, sig FunctionType, env types.LabelledTypesEnv) bool =
+//@    forall j int :: from <= j && j < n ==> has(g, ps[j].Ident) && eq(g[ps[j].Ident].Type, sig.Parameters[j - off].Type, env)
+//@ macro stepCall(p *CallForm, g NamesTypesCtx, sh *Name, A types.SessionType, env types.LabelledTypesEnv, sigma FunctionTypesEnv) bool =
+//@    has(sigma, p.functionName) && eq(A, sigma[p.functionName].Type, env) &&
+//@    ((len(sigma[p.functionName].Parameters) + 1 == len(p.parameters) && isProv(p.parameters[0].Ident, p.parameters[0].IsSelf, sh) && argsFit(p.parameters, 1, len(p.parameters), 1, g, sigma[p.functionName], env)) ||
+//@     (len(sigma[p.functionName].Parameters) == len(p.parameters) && argsFit(p.parameters, 0, len(p.parameters), 0, g, sigma[p.functionName], env)))
+//@ macro ctxShrinks(g NamesTypesCtx) bool = forall x string :: has(g, x) ==> old(has(g, x)) && g[x] == old(g[x])
+//@ macro sigmaApart(s FunctionTypesEnv) bool = forall f string :: has(s, f) ==> (forall k int :: 0 <= k && k < len(s[f].Parameters) ==> !callArg(addrof(s[f].Parameters[k])))
+//@ contract interface Form.typecheckForm(self, gamma, sh, providerType, env, sigma, globalEnv)
+//@   requires[C07] sigmaApart(sigma)
+//@ contract (*CallForm).typecheckForm
+//@   ensures[C07] C07.call: result == nil ==> old(stepCall(p, gammaNameTypesCtx, providerShadowName, providerType, labelledTypesEnv, sigma))
+//@   loop[C07] 1 invariant argsFrame()
+//@   loop[C07] 1 invariant ctxShrinks(gammaNameTypesCtx) && old(argsFit(p.parameters, 1, i, 1, gammaNameTypesCtx, functionSignature, labelledTypesEnv))
+//@   loop[C07] 2 invariant argsFrame()
+//@   loop[C07] 2 invariant ctxShrinks(gammaNameTypesCtx) && old(argsFit(p.parameters, 0, i, 0, gammaNameTypesCtx, functionSignature, labelledTypesEnv))
+
+// y <- new b; Q: the spawned term is one without continuation; it is checked as the provider of the new name at the
+// type of that name (the callee's result type for a call, the annotation otherwise) in the left part of the split
+// context, and the continuation is checked with the new name at that type
+//@ contract (*NewForm).typecheckForm
+//@   ensures[C07] C07.cutAxiomatic: result == nil ==> axiomatic(p.body)
+//@   callsite[C07] C07.cutCallBody process.Form.typecheckForm#1: arg0 == p.body && arg1 == gammaLeftNameTypesCtx && arg2 == addr(p, NewForm, new_name_c) && arg3 == functionSignatureType && has(sigma, CallForm(p.body).functionName)
+//@   callsite[C07] C07.cutCallCont process.Form.typecheckForm#2: arg0 == p.continuation_e && arg2 == providerShadowName && arg3 == providerType && arg1[p.new_name_c.Ident].Type == functionSignatureType
+//@   callsite[C07] C07.cutBody process.Form.typecheckForm#3: arg0 == p.body && arg1 == gammaLeftNameTypesCtx && arg2 == addr(p, NewForm, new_name_c) && arg3 == p.new_name_c.Type
+//@   callsite[C07] C07.cutCont process.Form.typecheckForm#4: arg0 == p.continuation_e && arg2 == providerShadowName && arg3 == providerType && arg1[p.new_name_c.Ident].Type == p.new_name_c.Type
